@@ -25,6 +25,7 @@ RULE = (
     "object, forged second instance, the class}; the same look-alikes stored through an attribute first, then instances leaving that attribute out (new / copy / deepcopy / updated), next to a subclass overriding the default; attribute get/set/del; non-trivial = nested "
     "shape, or a look-alike argument"
 )
+RULE += ' Round 19: attribute access rejected for 31 names incl. the protocol probes of abc / inspect / display hooks.'
 RULE += ' Round 16: every obtainer again after two calls of the type that ended with an error (positional / keyword argument).'
 RULE += ' Rounds 10-11: DEEP chains of 4-8 (12) containers under one state attribute; attributes whose annotation admits MISSING with another default, given an explicit MISSING.'
 ASSUMPTIONS = [
@@ -451,7 +452,9 @@ def execute(program, ch: Chooser) -> Result:  # noqa: C901, PLR0912, PLR0915
         return Result(f"predicates/{name}", not same, viols, {"value": name, "results": obs}, steps=steps)
     # attributes
     obs = {}
-    for attr in ("x", "value", "result", "name", "__wrapped__", "args"):
+    # (plain names and the protocol probes other libraries make on arbitrary objects: abc, inspect,
+    # functools, copy / pickle helpers, numpy-style array protocols, rich / IPython display hooks)
+    for attr in ("x", "value", "result", "name", "__wrapped__", "args", "__isabstractmethod__", "__len__", "__iter__", "__call__", "__index__", "__fspath__", "__set_name__", "__get__", "__array__", "__signature__", "__text_signature__", "__rich__", "_repr_html_", "__enter__", "__aenter__", "__await__", "__next__", "__getitem__", "__contains__", "__origin__", "__args__", "__dataclass_fields__", "_fields", "__attrs_attrs__", "a_rather_long_attribute_name_of_more_than_forty_characters"):
         for opname, op in (
             ("get", lambda a=attr: getattr(MISSING, a)),
             ("set", lambda a=attr: setattr(MISSING, a, 1)),
